@@ -203,7 +203,7 @@ def make_graph(rng, world=None, nv=None, ne=None, fix="first", custom=True, well
                 edges.append(dict(kind=rng.choice(["custom_num", "custom_ana"]), vids=[verts[idx_of[k]]["id"] for k in ks], est=val, info=[[rng.logu(0.5, 50)]]))
         # fixed flags
         comp_verts = verts[base:]
-        if fix == "first":
+        if fix in ("first", "none"):
             pass
         elif fix == "random":
             for v in comp_verts:
